@@ -33,6 +33,13 @@ def _w():
     return WORLD
 
 
+class _Pickled:
+    __slots__ = ("data",)
+
+    def __init__(self, data):
+        self.data = data
+
+
 class Frame:
     __slots__ = ("data", "total", "written", "consumed", "owner", "ordinal", "chunks")
 
@@ -129,6 +136,12 @@ class SimQueue:
         if f is None:
             f = self.feeders[proc] = Feeder(proc, self)
             proc.feeders.append(f)
+        if w.pickle_at_put:
+            # the feeder thread may serialise the object at once (before the caller's next instruction)
+            try:
+                obj = _Pickled(pickle.dumps(obj, protocol=pickle.HIGHEST_PROTOCOL))
+            except Exception:
+                pass
         f.buffer.append(obj)
         self.n_put += 1
         proc.n_put += 1
@@ -163,7 +176,7 @@ class SimQueue:
         f = act.target
         obj = f.buffer.popleft()
         try:
-            data = pickle.dumps(obj, protocol=pickle.HIGHEST_PROTOCOL)
+            data = obj.data if type(obj) is _Pickled else pickle.dumps(obj, protocol=pickle.HIGHEST_PROTOCOL)
         except Exception as e:  # Queue._on_queue_feeder_error: traceback is printed, item is dropped
             f.dropped += 1
             self.world.note_probe("feeder_pickle_error")
@@ -502,6 +515,7 @@ class SimProcess:
         self.died_abnormally = False
         self.death_info = None
         self.target_done = False
+        self.pending_signals = []
 
     def __deepcopy__(self, memo):
         return self
@@ -574,8 +588,9 @@ class SimProcess:
         if not self._started:
             raise AttributeError("'NoneType' object has no attribute 'terminate'")
         w.seam(Op("signal%d" % sig, self.label))
-        if not self.dead:
-            w.kill_proc(self, -sig, "api")
+        if not self.dead and sig not in self.pending_signals:
+            # os.kill() returns at once; the victim dies when the signal is delivered
+            self.pending_signals.append(sig)
 
     def close(self):
         if self._started and not self.dead:
@@ -640,6 +655,8 @@ class SimWorld:
         self.pending_empty = None  # for probes
         kernel.extra_actions.append(self._feeder_actions)
         kernel.extra_actions.append(self._fault_actions)
+        kernel.extra_actions.append(self._signal_actions)
+        self.pickle_at_put = False
 
     # ---- helpers
     def seam(self, op):
@@ -796,13 +813,28 @@ class SimWorld:
                 acts.append(Action("K%d" % i, "fault", ft, lambda act, proc=proc: act.target.fire(self, proc)))
         return acts
 
+    def _signal_actions(self):
+        acts = []
+        for p in self.procs:
+            if p.pending_signals and not p.dead:
+                acts.append(Action("S%d" % p.ordinal, "signal", p, self._deliver_signal))
+        return acts
+
+    def _deliver_signal(self, act):
+        p = act.target
+        sig = p.pending_signals.pop(0)
+        self.kill_proc(p, -sig, "api")
+        self.note_probe("signal_delivered_by_api")
+        return "deliver signal %d to %s" % (sig, p.label)
+
     # ---- end of program: what the interpreter does for multiprocessing at exit
     def parent_atexit(self):
         """util._exit_function in the main process: terminate daemons, join the rest."""
         for p in list(self.procs):
             if not p.dead and p.daemon:
                 self.seam(Op("atexit-terminate", p.label))
-                self.kill_proc(p, -15, "atexit")
+                if not p.dead and 15 not in p.pending_signals:
+                    p.pending_signals.append(15)
         for p in list(self.procs):
             if not p.dead:
                 self.note_probe("atexit_join_of_live_child")
